@@ -88,7 +88,8 @@ UD = SObj(
         SFld("d", STR, undefined=True, has_default=True, default="x"),
     ),
 )
-# the default is Undefined although the annotation does not mention UndefinedType
+# NOT in the pool: the default is Undefined although the annotation does not mention UndefinedType, so an
+# instance holding that default is not a value of its own type (outside the premise 'value v of T' of C04 / C07)
 UD2 = SObj("dataclass", "UD2", (SFld("a", INT, has_default=True, default_undefined=True), SFld("b", STR, has_default=True, default="x")))
 # defaults of every kind (value, None, factory, nested object factory)
 DF = SObj(
@@ -136,6 +137,7 @@ FS2 = SObj(
 # inheritance from / to undecorated classes
 _FS1F = FS1.fields
 FSP = SObj("dataclass", "FSP", _FS1F, base="FS1", redecorate=False, serialized=(SerM("label", STR, "a_str"),))
+# NOT in the pool: an undecorated @dataclass subclass is not 'a class decorated with with_fields_set' (premise of C15)
 FSD = SObj("dataclass", "FSD", _FS1F + (SFld("z", Opt(INT), has_default=True, default=None),), base="FS1", own=("z",))
 UB = SObj("dataclass", "UB", (SFld("a", INT), SFld("b", Opt(STR), has_default=True, default=None)), serialized=(SerM("a_inc", INT, "a_plus1"),))
 DS = SObj("dataclass", "DS", UB.fields + (SFld("c", INT, has_default=True, default=0),), base="UB", own=("c",), fields_set=True, serialized=UB.serialized)
@@ -210,7 +212,7 @@ AL = SObj(
 )
 TD3 = TD3_
 
-SER_OBJECTS: List[TD] = [SM1, SM2, SM3, SM4, ANYF, SK, SK2, NU, UD, UD2, DF, RO, FS1, FS2, FS3, FS4, FSP, FSD, UB, DS, SM1S, CV1, RS, RS2, RSS, CV2, KS, AL, TD3, FSC, FSC2, RSUM, RN, POST, HOLD]
+SER_OBJECTS: List[TD] = [SM1, SM2, SM3, SM4, ANYF, SK, SK2, NU, UD, DF, RO, FS1, FS2, FS3, FS4, FSP, UB, DS, SM1S, CV1, RS, RS2, RSS, CV2, KS, AL, TD3, FSC, FSC2, RSUM, RN, POST, HOLD]
 SER_EXTRA: List[TD] = [
     Coll("list", SM1),
     Opt(SK),
